@@ -108,7 +108,8 @@ impl Property for C17Prop {
             inputs.push(json!({"text": text, "declares": names}));
             i += n;
         }
-        Some(json!({"kind": "repl", "inputs": inputs}))
+        let files: serde_json::Map<String, Json> = case::import_files(&program).into_iter().map(|(n, t)| (n, json!(t))).collect();
+        Some(json!({"kind": "repl", "inputs": inputs, "files": files}))
     }
 
     fn check_case(&self, case: &Json, stats: &mut Stats) -> Verdict {
@@ -127,7 +128,8 @@ fn check_repl(case: &Json, stats: &mut Stats) -> Verdict {
     let mut prefix = String::new();
     let mut reads_earlier = false;
     for (k, input) in inputs.iter().enumerate() {
-        let text = input["text"].as_str().unwrap_or("");
+        let text = &case::materialise(input["text"].as_str().unwrap_or(""), case);
+        let text = text.as_str();
         // incremental route: parse against the live interpreter, run unscoped (as the REPL does)
         run::default_budget();
         stats.eval();
